@@ -127,7 +127,8 @@ Definition case_static (c : lcd_cfg) (d : doc) (py : res doc) : list bool :=
     on_ok py (whitelist_b (c_pta c) (c_color c) (c_bg c)) || (trig_position_content d && on_ok py (whitelist_but_position_b c));
     on_ok py (safe_area_b (c_sa c));
     on_ok py (merged_b d);
-    on_ok py (fun d' => refs_resolved_b d' && redirected_b true d d') || trig_end_zero d;
+    on_ok py (fun d' => refs_resolved_b d' && redirected_b true d d') ||
+      (trig_end_zero d && on_ok py (fun d' => refs_resolved_b d' && redirected_b false d d'));
     match py with Ok _ => true | Err _ => trig_total c d end;
     (* the model run again on the implementation's result gives that result back *)
     on_ok py (fun d' => lcd_outcome_close (lcd c d') (Ok d')) ].
@@ -138,7 +139,9 @@ Definition case_strict (c : lcd_cfg) (d : doc) (py : res doc) : list bool :=
     match py with Ok _ => true | Err _ => false end ].
 (* timeline at the query times: required when the document hides nothing and no timeline trigger fires *)
 Definition case_timeline (c : lcd_cfg) (d : doc) (py : res doc) (ts : list Q) : list bool :=
-  map (fun t => on_ok py (fun d' => timeline_b d d' t) || negb (no_hiding_b d) || trig_timeline c d) ts.
+  map (fun t => (on_ok py (fun d' => timeline_b d d' t) || negb (no_hiding_b d) || trig_timeline c d) &&
+                (* whatever the document hides, nothing visible before is lost (the filter only removes display styling) *)
+                (on_ok py (fun d' => timeline_kept_b d d' t) || trig_end_zero d)) ts.
 Definition case_timeline_strict (d : doc) (py : res doc) (ts : list Q) : list bool :=
   map (fun t => on_ok py (fun d' => timeline_b d d' t) || negb (no_hiding_b d)) ts.
 (* configured colour / background / centred alignment in the snapshots (Model/Isd.v) of the result *)
